@@ -12,6 +12,7 @@ import re
 
 from hv import hx, drive, trace
 from hv import statutory as st
+from hv import statutory as _stat
 from hv.common import rng_for, h
 
 I = hx.inputs
@@ -720,6 +721,16 @@ def directed_personas(year, seed, n):
             p.f8606.update({'part_1_needed': True, 'part_2_needed': False, 'part_3_needed': False, 'distribution_or_roth_conversion': False,
                             'nondeductible_contributions': round(r.uniform(500, 6000), 2)})
             out.append(('F5r', p))
+        # federal AGI a few cents above a band edge of the N.C. child-deduction table (the worksheet works on whole dollars)
+        st_ = r.choice(['S', 'MFJ', 'HOH', 'MFS', 'QSS'])
+        edge = r.choice(_stat.NC_CHILD[year][st_])[0]
+        p = plain_persona(year, st_, edge + r.choice([0.40, 0.25, 0.49, -0.40]), key=f'diredge:{seed}:{k}', deps_ctc=r.choice([1, 2]), nc=True)
+        out.append(('F8e', p))
+        # AGI an exact multiple of 1,000 above the child-tax-credit phase-out threshold ("if not a multiple of $1,000, the next multiple")
+        st_ = r.choice(['S', 'HOH', 'MFS', 'MFJ'])
+        base_ = 400000 if st_ == 'MFJ' else 200000
+        p = plain_persona(year, st_, float(base_ + 1000 * r.randint(1, 40)), key=f'dirk:{seed}:{k}', deps_ctc=r.choice([1, 2]), deps_odc=r.choice([0, 1]))
+        out.append(('F1k', p))
         # plain (fully taxable) IRA distributions of both spouses
         p = plain_persona(year, 'MFJ', [round(r.uniform(40000, 90000), 2), round(r.uniform(30000, 60000), 2)], key=f'dirira:{seed}:{k}')
         p.n_1099r = 2
